@@ -63,6 +63,19 @@ def shadow(shadow2, shadowed=lambda shadow3: shadow3): return shadow2
 from os import path as path2, path as pathx
 importlib = __import__('importlib')
 def f(defx, classy=1): pass
+def stars(a=max(0, *[1]), b=dict(x=1, **{}), * spaced, ** kwspaced): return a, b
+def stars2(args=1, kw=2, *
+           args2, **
+           kw2): return args, kw
+def stars3(first=lambda *va, **kwa: (va, kwa), *va, **kwa): return first
+lam_stars = lambda x, * rest, ** more: x
+def m2(v):
+    match v:
+        case [first, * spaced_rest]: return first, spaced_rest
+        case (head,
+              *
+              tail_next_line): return head
+        case [*	after_tab] if after_tab: return 1
 ''',
     'words-that-occur-twice': '''from datetime import datetime
 from os.path import path
@@ -109,6 +122,51 @@ def m(v):
         case str() as text: return text
 ''',
 }
+
+
+def binding_occurrences(tree, text):
+    """{identifier: set of (line, column)}: where each binding construct of the text writes the name it binds - from the parser's node positions
+    and the token stream only (never from supp): Name targets, parameters, aliases (the `as` name, else the first component), the NAME token
+    behind def / class, the except keyword of a named handler, match captures (the last NAME token of the pattern; behind `**` for a mapping
+    rest), type parameters and aliases"""
+    import io
+    import tokenize
+    toks = [t for t in tokenize.generate_tokens(io.StringIO(text).readline) if t.type in (tokenize.NAME, tokenize.OP)]
+    occ = {}
+
+    def add(name, pos):
+        occ.setdefault(name, set()).add(tuple(pos))
+
+    def tokens_in(node):
+        lo, hi = (node.lineno, node.col_offset), (node.end_lineno, node.end_col_offset)
+        return [t for t in toks if lo <= t.start < hi]
+    for n in ast.walk(tree):
+        if isinstance(n, ast.Name) and isinstance(n.ctx, ast.Store):
+            add(n.id, (n.lineno, n.col_offset))
+        elif isinstance(n, ast.arg):
+            add(n.arg, (n.lineno, n.col_offset))
+        elif isinstance(n, ast.alias) and n.name != '*':
+            ident = n.asname or n.name.partition('.')[0]
+            add(ident, (n.end_lineno, n.end_col_offset - len(ident)) if n.asname else (n.lineno, n.col_offset))
+        elif isinstance(n, (ast.FunctionDef, ast.AsyncFunctionDef, ast.ClassDef)):
+            ts = tokens_in(n)
+            for k, t in enumerate(ts):
+                if t.string in ('def', 'class') and t.type == tokenize.NAME:
+                    add(n.name, ts[k + 1].start)
+                    break
+        elif isinstance(n, ast.ExceptHandler) and n.name:
+            add(n.name, (n.lineno, n.col_offset))
+        elif isinstance(n, (ast.MatchAs, ast.MatchStar)) and n.name:
+            cand = [t for t in tokens_in(n) if t.type == tokenize.NAME and t.string == n.name]
+            add(n.name, cand[-1].start)
+        elif isinstance(n, ast.MatchMapping) and n.rest:
+            ts = tokens_in(n)
+            stars = [k for k, t in enumerate(ts) if t.string == '**']
+            add(n.rest, ts[stars[-1] + 1].start)
+        elif type(n).__name__ in ('TypeVar', 'ParamSpec', 'TypeVarTuple'):
+            cand = [t for t in tokens_in(n) if t.type == tokenize.NAME and t.string == n.name]
+            add(n.name, cand[0].start)
+    return occ
 
 
 def text_at(lines, pos, n):
@@ -179,6 +237,7 @@ def binding_positions(run):
             import io
             import tokenize
             name_tokens = {tok.start for tok in tokenize.generate_tokens(io.StringIO(text).readline) if tok.type == tokenize.NAME}
+            occurrences = binding_occurrences(tree, text)
             declared = {}
             bad = []
             count = 0
@@ -197,6 +256,9 @@ def binding_positions(run):
                     bad.append((ident, tuple(pos), 'all_names', got))
                 elif tuple(pos) not in name_tokens:
                     bad.append((ident, tuple(pos), 'all_names (the word there is part of a comment or a string, not a token)', got))
+                elif tuple(pos) not in occurrences.get(ident, ()):
+                    bad.append((ident, tuple(pos), 'all_names (an occurrence of the word that binds nothing; the constructs binding it write it at %r)'
+                                % sorted(occurrences.get(ident, ())), got))
                 if type(name).__name__ == 'ImportedName':
                     imported_at.setdefault(ident, []).append(tuple(pos))
             for ident in set(alias_at) | set(imported_at):
